@@ -378,7 +378,12 @@ class DCtx:
         self.did = did
         self.root = dict_root(did, repo)
         self.d = Dictionary(self.root, did)
-        self.schema = FIXSchema(ET.ElementTree(copy.deepcopy(self.root)))
+        self.load_error = None
+        try:
+            self.schema = FIXSchema(ET.ElementTree(copy.deepcopy(self.root)))
+        except BaseException as e:  # noqa - the library cannot load this dictionary at all
+            self.schema = None
+            self.load_error = "EXC:%s: %s" % (type(e).__name__, str(e)[:200])
         d = self.d
         self.msgs = d.messages
         # plain (never used as a group, not header/trailer) fields in tag order: candidates for
@@ -511,8 +516,9 @@ def valid_instances(dc, mi, quick_subset, thorough=True):
             base = build(members, False, "min", target=p)
             for e in m["en"][1:]:
                 yield "enumerator|" + lv, set_value(base, p, e), base
-            if m["typ"].upper() in MULTI and len(m["en"]) >= 2:
-                yield "multiple_value_string_two_enumerators", set_value(base, p, m["en"][0] + " " + m["en"][1]), base
+            # Deliberately NOT demanded: "enum1 enum2" for enumerated MultipleValueString fields.  FIX allows
+            # space separated lists there, but C19 states that enumerated fields accept exactly the enumerated
+            # values - the two statements leave this cell open, so it is unconstrained (the library rejects it).
         else:
             t = m["typ"].upper()
             for v in CANON.get(t, [])[1:]:
@@ -938,7 +944,13 @@ def run(ctx):
     REPO = ctx.repo
     thorough = not ctx.quick
     for did in DICT_IDS:
-        get_dc(did, REPO)
+        dc = get_dc(did, REPO)
+        if dc.load_error:
+            ctx.violation("dictionary_rejected|declared_order", VALID_CLAUSE,
+                          {"dictionary": did, "observed": dc.load_error,
+                           "expected": "FIXSchema loads the dictionary (R10 expands it without error)"},
+                          {"kind": "load", "dict": did})
+            ctx.count(states=1, transitions=1)
     ctx.rule = (
         "R10 (independent xml.etree walker, components inlined) expands every message type of FIX44.xml, "
         "TT-FIX44.xml, schema_fix_simple.xml and one synthetic dictionary; per message: valid instances (minimal, "
@@ -958,6 +970,8 @@ def run(ctx):
     items = []
     for did in DICT_IDS:
         dc = DC[did]
+        if dc.schema is None:
+            continue
         for mi, (name, mt, members) in enumerate(dc.msgs):
             sz = count_positions(members)
             parts = ["valid", "faults_min", "faults_max", "faults_two", "header"]
@@ -991,7 +1005,7 @@ def run(ctx):
     for did in DICT_IDS:
         dc = DC[did]
         n = len(dc.d.component_order)
-        if n < 2:
+        if n < 2 or dc.schema is None:
             nperm[did] = 0
             continue
         if did in ("SIMPLE", "SYN"):
@@ -1077,6 +1091,11 @@ def replay(ctx, rep):
     from asyncfix.protocol.schema import FIXSchema
 
     dc = get_dc(rep["dict"], REPO)
+    if rep["kind"] == "load" or dc.schema is None:
+        if dc.load_error:
+            return [{"signature": "dictionary_rejected|declared_order", "clause": VALID_CLAUSE,
+                     "detail": {"dictionary": rep["dict"], "observed": dc.load_error}, "replay": rep}]
+        return []
     if rep["kind"] == "case":
         mt, tree = rep["msgtype"], rep["tree"]
         v = verdict(dc.schema, mt, tree)
